@@ -26,6 +26,7 @@ def run(chk, tier):
         chain_writers(chk, F, 'R13.3', cfg)
         from props import ctor
         ctor.push_value_mut(chk, F, 'R13.2.mut', cfg)
+        helper_cell(chk, F, 'R13.6', cfg)
         lent_boxes(chk, F, 'R13.3.lent', cfg)
         leaks.census(chk, F, 'R13.4', cfg)
         # the chain is released by teardown (pre-effect) and by Drop only
@@ -119,6 +120,39 @@ def chain_writers(chk, F, rule, cfg):
     chk.ob(rule, 'make_mut (which releases earlier values) needs exclusive access', mm.locals[1]['ty'].startswith('&mut'), config=cfg, fn=mm, site='make_mut', what='make_mut receiver %s' % mm.locals[1]['ty'], found=mm.locals[1]['ty'])
     pvm = F.fn('value_chain::ValueChain::push_value_mut')
     chk.ob(rule, 'push_value_mut needs exclusive access', pvm.locals[1]['ty'].startswith('&mut'), config=cfg, fn=pvm, site='push_value_mut', what='receiver %s' % pvm.locals[1]['ty'], found=pvm.locals[1]['ty'])
+
+
+HELPER_OK = re.compile(r'OnceCell(<T>)?::(get_or_init|get_or_try_init|get|get_mut)$')
+
+
+def helper_cell(chk, F, rule, cfg):
+    """The delegation helper (which owns its own chain of lent values) lives in a write-once cell of the instance: it is created
+    lazily (get_or_init), read, and released only by teardown. Replacing or clearing it earlier would release values lent through it
+    while the instance is alive."""
+    n = 0
+    users = sorted(set(b.root for b, _, _, _ in L.field_accesses(F, 'Unimock', 'default_impl_delegator_cell')))
+    for d in users:
+        fn = F.fns.get(d)
+        if fn is None:
+            continue
+        for body in F.with_closures(fn):
+            for p in symex.Interp(F, loop_bound=2).run(body):
+                for e in p.effects:
+                    if e.kind == 'call' and e.data[2]:
+                        a0 = e.data[2][0]
+                        if field_path(a0)[1][-1:] != ['default_impl_delegator_cell']:
+                            continue
+                        nm = e.data[1]
+                        n += 1
+                        ok = bool(HELPER_OK.search(nm)) or (body.defp == 'teardown::teardown' and re.search(r'OnceCell(<T>)?::take$', nm))
+                        chk.ob(rule, 'the helper cell is only initialised once, read, or (in teardown) taken', ok, config=cfg, fn=body, site='helper-cell-op:%s' % nm.rsplit('::', 1)[-1],
+                               what='helper cell operation %s in %s' % (nm.rsplit('::', 1)[-1], body.defp[-60:]), found=nm, expected='get_or_init / get / get_mut; take only in teardown')
+                    if e.kind == 'write' and e.data[0][1][-1:] == (('f', 'default_impl_delegator_cell'),):
+                        chk.ob(rule, 'the helper cell is never assigned (that would release values lent through the old helper early)', False, config=cfg, fn=body, site='helper-cell-write',
+                               what='helper cell assigned in %s' % body.defp[-60:], found=symex.show_lv(e.data[0]))
+                    if e.kind == 'drop' and field_path(e.data[0])[1][-1:] == ['default_impl_delegator_cell'] and body.defp != 'teardown::teardown':
+                        chk.ob(rule, 'the helper cell is never dropped in place outside teardown', False, config=cfg, fn=body, site='helper-cell-drop', what='helper cell dropped in %s' % body.defp[-60:])
+    chk.floor(rule, 'operations on the delegation helper cell', n, 4, config=cfg)
 
 
 def lent_boxes(chk, F, rule, cfg):
